@@ -177,7 +177,26 @@ def oracle_c01(case, obs):
     for k, (f, r) in enumerate(zip(fw, case.get("resps", []))):
         sp = R.parse_responses(unhx(r["data_hex"]), [unhx(f["req"]["method"])], eof=bool(r.get("close")))
         if sp.stop is not None and sp.stop[0] == "ambiguous" and not sp.messages and relayed(f):
+            # an interim 1xx response is swallowed by the proxy, never relayed: a malformed one is thereby rejected, and
+            # the final response that follows is judged on its own
+            m1 = re.match(rb"[\r\n]*HTTP/[0-9]\.[0-9] (1[0-9][0-9])(?: |\r?\n)", unhx(r["data_hex"])[sp.rest:])
+            if m1 and m1.group(1) != b"101":
+                continue
             fails.append(f"resp-ambiguous: server response #{k} is ambiguous ({sp.stop[1]}) but was relayed")
+    # C01: "responses relayed to the client ... each response matched to its own request" — the response recorded (and relayed)
+    # for forwarded request k must be the one the server sent in answer to request k (the scripted stream k, read by the
+    # reference parser in the context of that request's method); bytes the server sent unasked are never relayed.
+    edited = {e["flow"] for e in case.get("edits", []) if e["at"].startswith("response")}
+    for k, (f, r) in enumerate(zip(fw, case.get("resps", []))):
+        if not relayed(f) or flows.index(f) in edited:
+            continue
+        sp = R.parse_responses(unhx(r["data_hex"]), [unhx(f["req"]["method"])], eof=True)
+        mine = [m for m in sp.messages if not m["interim"]]
+        if not mine:
+            continue
+        d = resp_eq(mine[0], f["resp"], body=mine[0]["framing"] != "eof")
+        if d:
+            fails.append(f"resp-pairing: the response relayed for request #{k} is not the one the server sent for it (differs in {d})")
     return fails
 
 
@@ -548,7 +567,7 @@ class Check(PropertyCheck):
         while True:
             if rng.chance(0.45):
                 c = X.gen_exchange(rng); c["op"] = "x"
-                if rng.chance(0.3): c = X.gen_schedule(rng, c)
+                if "scuts" not in c and rng.chance(0.3): c = X.gen_schedule(rng, c)
                 yield c
             else:
                 yield from self.fn_cases(rng)
